@@ -125,3 +125,69 @@ Proof.
   rewrite map_app, map_length. cbn [map lc_kind lc_cells]. unfold nrows_l.
   destruct (lookup name (l_names t)); reflexivity.
 Qed.
+
+(* ---------- dm[i].name = value ---------- *)
+Lemma abs_fresh_col t name k :
+  abs (lbind t name (List.length (l_cols t))
+             (l_cols t ++ [{| lc_kind := k; lc_rowid := idx_of_list (ia (l_rowid t));
+                              lc_cells := repeat (default_cell k) (nrows_l t); lc_owner := true; lc_tc := true |}]))
+  = fresh_col (abs t) name k.
+Proof.
+  unfold fresh_col, add_slot, abs, lbind, bind_name, has_name, nrows.
+  cbn [fst snd l_fam l_rowid l_names l_cols l_sorted l_dflt fam ids names slots tsorted dflt].
+  rewrite map_app, map_length. cbn [map lc_kind lc_cells]. unfold nrows_l.
+  destruct (lookup name (l_names t)); reflexivity.
+Qed.
+
+Lemma put_put w i a b : put (put w i a) i b = put w i b.
+Proof.
+  unfold put. cbn [pool nextfam]. f_equal.
+  generalize (pool w). clear. induction i as [|i IH]; intros [|x l]; cbn [set_nth]; try reflexivity. f_equal. apply IH.
+Qed.
+
+Lemma put_same w i t : get w i = Some t -> put w i t = w.
+Proof.
+  unfold get, put. destruct w as [pl nf]. cbn [pool nextfam]. intros H. f_equal.
+  revert i H. induction pl as [|x l IH]; intros [|i] H; cbn [set_nth nth_error] in *; try discriminate; try reflexivity.
+  - injection H as ->. reflexivity.
+  - f_equal. apply IH. exact H.
+Qed.
+
+Theorem setcell_row_refines (w : world) p ti name i v :
+  pool w = map abs p -> winv p ->
+  match lstep p (OSetCell ti name (ARow i) (RScalar v)) with
+  | LUpd j t' => step w (OSetCell ti name (ARow i) (RScalar v)) = (put w j (abs t'), OkUnit)
+  | LErrUpd j t' => exists e, step w (OSetCell ti name (ARow i) (RScalar v)) = (put w j (abs t'), Err e)
+  | LErr => step w (OSetCell ti name (ARow i) (RScalar v)) = (w, Err IndexError)
+  | LSkip => True
+  | LNew _ => False
+  end.
+Proof.
+  intros Hp Hw. cbn [lstep]. destruct (nth_error p ti) as [t|] eqn:Et; [|exact I].
+  cbn [step]. rewrite (get_abs w p ti t Hp Et). change (nrows (abs t)) with (nrows_l t).
+  rewrite getrow_oob_spec.
+  destruct (norm_index (nrows_l t) i) as [q|] eqn:En; [|reflexivity].
+  unfold has_name. change (names (abs t)) with (l_names t). change (dflt (abs t)) with (l_dflt t).
+  set (t1 := match lookup name (l_names t) with
+             | Some _ => t
+             | None => lbind t name (List.length (l_cols t))
+                             (l_cols t ++ [{| lc_kind := l_dflt t; lc_rowid := idx_of_list (ia (l_rowid t));
+                                              lc_cells := repeat (default_cell (l_dflt t)) (nrows_l t);
+                                              lc_owner := true; lc_tc := true |}])
+             end).
+  assert (Ht1 : (if match lookup name (l_names t) with Some _ => true | None => false end
+                 then abs t else fresh_col (abs t) name (l_dflt t)) = abs t1).
+  { unfold t1. destruct (lookup name (l_names t)); [reflexivity|]. symmetry. apply abs_fresh_col. }
+  rewrite Ht1.
+  assert (Hn1 : nrows_l t1 = nrows_l t) by (unfold t1; destruct (lookup name (l_names t)); reflexivity).
+  unfold set_cells. change (names (abs t1)) with (l_names t1).
+  destruct (lookup name (l_names t1)) as [ci|] eqn:El.
+  2: { exact I. }
+  change (slots (abs t1)) with (map slot_of_col (l_cols t1)). rewrite nth_error_map.
+  destruct (nth_error (l_cols t1) ci) as [c|] eqn:Ec; cbn [option_map]; [|exact I].
+  cbn [address]. change (nrows (abs t1)) with (nrows_l t1). rewrite Hn1, En.
+  change (skind (slot_of_col c)) with (lc_kind c). change (scells (slot_of_col c)) with (lc_cells c).
+  destruct (nf (lc_kind c) v) as [x|e].
+  - rewrite put_put, abs_with_cells. reflexivity.
+  - eexists. reflexivity.
+Qed.
